@@ -70,7 +70,7 @@ Poke(o) == FuncD("poke", <<"z", "i">>, <<"array<int>", "int">>, "int",
 Prog(len, k, o, c) ==
    [funcs |-> <<Poke(o), FuncD("body", <<>>, <<>>, "int", Body(len, k, o, c)),
                FuncD("main", <<>>, <<>>, "int", <<RetS(CallE("body", <<>>))>>)>>,
-    structs |-> <<>>, enums |-> <<>>, unions |-> <<>>, globals |-> <<>>, shadows |-> <<>>]
+    structs |-> <<>>, enums |-> <<>>, unions |-> <<>>, globals |-> <<>>, shadows |-> <<>>, externs |-> <<>>]
 
 \* pop ignores the index: one index kind is enough for it; an empty array has no in-range index
 Relevant == /\ (op = "pop" => kind = "in0")
